@@ -4,6 +4,7 @@ import (
 	"bytes"
 	"encoding/json"
 	"fmt"
+	"os"
 
 	"github.com/corestario/kyber/share"
 	"github.com/corestario/kyber/sign/tbls"
@@ -225,7 +226,11 @@ func c02(tier string, args []string) int {
 	}
 	totS, totT, totTerm, oracleRuns := 0, 0, 0, 0
 	var per []string
-	for _, nt := range allNT(2, maxN) {
+	cfgs := allNT(2, maxN)
+	if os.Getenv("VERIF_PART") == "two-rounds" { // development aid: only the two-round part
+		cfgs = nil
+	}
+	for _, nt := range cfgs {
 		if r.TimeUp() {
 			break
 		}
@@ -278,11 +283,14 @@ func c02(tier string, args []string) int {
 			}
 		}
 	}
+	// two rounds on the same machines (c02b.go)
+	two := c02TwoRounds(r, tier)
+	r.Set("two_round_histories", two)
 	r.Set("states", totS)
 	r.Set("transitions", totT)
 	r.Set("traces_validated_against_impl", totTerm)
 	r.Set("signing_ready_states_judged", oracleRuns)
 	r.Set("explorations", per)
-	r.Set("rule", "BFS over every order in which operators answer each key-generation phase (real nodes, real airgapped machines), states merged on node stores; in every state with a signing-ready node: all machine shares on one degree t-1 polynomial, its constant term = every announced key, every ready node retains that polynomial, every t-subset signs to the same blst-valid signature, no (t-1)-subset does; repeated with each participant announcing a different polynomial (same or different constant term)")
+	r.Set("rule", "BFS over every order in which operators answer each key-generation phase (real nodes, real airgapped machines), states merged on node stores; in every state with a signing-ready node: all machine shares on one degree t-1 polynomial, its constant term = every announced key, every ready node retains that polynomial, every t-subset signs to the same blst-valid signature, no (t-1)-subset does; repeated with each participant announcing a different polynomial (same or different constant term); two rounds of the same machines (the second under an unrelated id, or one that differs by white space or case only; other threshold; one after the other in both orders, and interleaved): both rounds judged at the end and after the machines were reopened")
 	return finish(r)
 }
